@@ -380,6 +380,7 @@ def shrink(recipe, fails, budget=400):
 #   ("getslice", index, a)         a[index]  (ints / slices; index stored as ("i", k) | ("s", a, b, c))
 #   ("getitem", a, idx)            a[idx] with an integer-valued funsor idx
 #   ("independent", fn, rv, bv, dv) Independent(fn, rv, bv, dv)
+#   ("unaryf", f, a)               ops.<f>(a) for a transcendental f (exp log sigmoid sqrt tanh …): uninterpreted in Lean
 #   ("getsugar", a, items)         a[items]: `:` / Ellipsis / int / name / funsor items (getitem at any offset)
 # Kinds: "real", "bool", ("array", shape), or an int (Bint size).
 # ---------------------------------------------------------------------------------------------
@@ -443,6 +444,7 @@ _EXT_BUILD = {
     "getitem": lambda r: build(r[1])[build(r[2])],
     "independent": lambda r: Independent(build(r[1]), r[2], r[3], r[4]),
     "getsugar": lambda r: build(r[1])[_sugar_index(r[2])],
+    "unaryf": lambda r: getattr(ops, r[1])(build(r[2])),
 }
 
 
@@ -468,6 +470,7 @@ _EXT_PY = {
     "getitem": lambda r: f"({python_of(r[1])})[{python_of(r[2])}]",
     "independent": lambda r: f"Independent({python_of(r[1])}, {r[2]!r}, {r[3]!r}, {r[4]!r})",
     "getsugar": lambda r: f"({python_of(r[1])})[{_py_sugar_index(r[2])}]",
+    "unaryf": lambda r: f"ops.{r[1]}({python_of(r[2])})",
 }
 
 _EXT_CHILDREN = {
@@ -484,6 +487,7 @@ _EXT_CHILDREN = {
     "getslice": lambda r: [((2,), r[2], "other")],
     "getitem": lambda r: [((1,), r[1], "other"), ((2,), r[2], "int")],
     "independent": lambda r: [((1,), r[1], "other")],
+    "unaryf": lambda r: [((2,), r[2], "other")],
     "getsugar": lambda r: [((1,), r[1], "other")] + [((2, i, 1), it[1], "int") for i, it in enumerate(r[2]) if it[0] == "r"],
 }
 
